@@ -4,6 +4,8 @@ CONSTANTS
   FactStates <- MCFacts
   MaxCycles = {0, 1, 2}
   Flags = {TRUE, FALSE}
+  Modes = {"exec", "fetch"}
+  MaxCalls = 1
   CanCancel = FALSE
 PROPERTIES Terminates
 CHECK_DEADLOCK FALSE
